@@ -1,3 +1,84 @@
-/- C15 — property theorems: see below (being extended). -/
+/-
+  C15 — heartbeats track thread lifetime and expire before the ID is reused.
+  `Gen.heartbeatExpiresFirst` is regenerated from the source of `~HeartBeater` (does the heartbeat
+  pointer die before the reservation flag is cleared?); the run-time order of the two steps is also
+  part of every compared trace.
+-/
+import CppUtil.Proofs.IdMgrInv
 import CppUtil.Gen.Thread
-import CppUtil.Model.TClient
+
+namespace CppUtil.Props
+open CppUtil CppUtil.IdMgr
+
+/-- tie G: in the current source the heartbeat expires before the ID is released -/
+theorem c15_exit_order : Gen.heartbeatExpiresFirst = true := by decide
+
+/-- **lifetime**: a thread's heartbeat is unexpired exactly from its claiming exchange until the expiry
+    step of its exit path; in particular it is unexpired while the thread runs user code (`owner`) and
+    expired once the thread is `dead`. -/
+theorem c15_lifetime (n : Nat) (hn : 0 < n) (ef : Bool) (nthreads : Nat) (acts : List Act) (s : St)
+    (h : run n ef (mkSt n nthreads) acts = some s) (t : Nat) (l : TLoc) (ht : s.threads[t]? = some l) :
+    s.alive.getD t false = holdsToken ef l ∧
+    (∀ id, l = .owner id → s.alive.getD t false = true) ∧ (l = .dead → s.alive.getD t false = false) := by
+  have hI := inv_run hn (inv_init n nthreads ef) h
+  have := hI.tok t l ht
+  refine ⟨this, ?_, ?_⟩
+  · intro id hl; subst hl; rw [this]; rfl
+  · intro hl; subst hl; rw [this]; rfl
+
+/-- **expired before reuse**: with the exit order of the current source, whenever the reservation flag of
+    ID `i` is clear, no unexpired heartbeat belongs to `i` — so at the exchange that hands `i` to a new
+    thread every heartbeat given to earlier owners of `i` is already expired. -/
+theorem c15_free_slot_all_expired (n : Nat) (hn : 0 < n) (nthreads : Nat) (acts : List Act) (s : St)
+    (h : run n Gen.heartbeatExpiresFirst (mkSt n nthreads) acts = some s) (i : Nat) (hi : i < n)
+    (hfree : s.slots.getD i false = false) (t : Nat) (l : TLoc) (ht : s.threads[t]? = some l)
+    (hl : l.pos? = some i) : s.alive.getD t false = false := by
+  rw [c15_exit_order] at h
+  have hI := inv_run hn (inv_init n nthreads true) h
+  rw [hI.tok t l ht]
+  cases hb : holdsToken true l with
+  | false => rfl
+  | true =>
+    exfalso
+    have hr : reserves true l = some i := by
+      cases l <;> simp [holdsToken] at hb <;> simp [TLoc.pos?] at hl <;> simp [reserves, hl]
+    have := slot_of_reserver hI ht hr hi
+    rw [hfree] at this; cases this
+
+/-- **at most one unexpired heartbeat per ID** -/
+theorem c15_unexpired_unique (n : Nat) (hn : 0 < n) (nthreads : Nat) (acts : List Act) (s : St)
+    (h : run n Gen.heartbeatExpiresFirst (mkSt n nthreads) acts = some s) (t1 t2 i : Nat) (hne : t1 ≠ t2)
+    (l1 l2 : TLoc) (h1 : s.threads[t1]? = some l1) (h2 : s.threads[t2]? = some l2)
+    (p1 : l1.pos? = some i) (p2 : l2.pos? = some i)
+    (a1 : s.alive.getD t1 false = true) (a2 : s.alive.getD t2 false = true) : False := by
+  rw [c15_exit_order] at h
+  have hI := inv_run hn (inv_init n nthreads true) h
+  have hi : i < n := hI.pos _ (List.mem_of_getElem? h1) i p1
+  rw [hI.tok t1 l1 h1] at a1
+  rw [hI.tok t2 l2 h2] at a2
+  have r1 : reserves true l1 = some i := by
+    cases l1 <;> simp [holdsToken] at a1 <;> simp [TLoc.pos?] at p1 <;> simp [reserves, p1]
+  have r2 : reserves true l2 = some i := by
+    cases l2 <;> simp [holdsToken] at a2 <;> simp [TLoc.pos?] at p2 <;> simp [reserves, p2]
+  have hc := resCount_set true s t1 l1 .dead i h1
+  have h2' : (setT s t1 .dead).threads[t2]? = some l2 := by
+    simp only [setT]; rw [List.getElem?_set_ne hne]; exact h2
+  have hpos : 0 < resCount true (setT s t1 .dead) i := by
+    unfold resCount
+    apply List.countP_pos_iff.mpr
+    exact ⟨_, List.mem_of_getElem? h2', by simp [r2]⟩
+  have := hI.cnt i hi
+  have e1 : (if reserves true l1 == some i then 1 else 0) = 1 := by simp [r1]
+  have e2 : (if reserves true TLoc.dead == some i then 1 else 0) = 0 := by simp [reserves]
+  rw [e1, e2] at hc
+  split at this <;> omega
+
+/-- **Why the order matters** (the defect repaired by the `fix:` commit, kept as a regression): with the
+    original order — flag cleared first — capacity 1 and two threads reach a state in which the second
+    thread owns ID 0 while the first thread's heartbeat for ID 0 is still unexpired. -/
+theorem c15_counterexample_original_order : ∃ s, run 1 false (mkSt 1 2)
+    [.begin 0 0, .atom 0, .atom 0, .beginExit 0, .atom 0, .begin 1 0, .atom 1, .atom 1] = some s ∧
+    s.threads[1]? = some (.owner 0) ∧ s.alive.getD 0 false = true ∧ s.threads[0]? = some (.exit2 0) :=
+  ⟨_, rfl, rfl, rfl, rfl⟩
+
+end CppUtil.Props
